@@ -284,4 +284,11 @@ def wrap(pt, entry):
     e = build(pt)
     if kind == "n":
         return pt.Seq(e, pt.Int(1))
+    # consume the value with an opcode of the type PyTeal itself declares for it, so that a wrong declaration (a field or
+    # constructor typed uint64 that yields bytes, or the reverse) becomes visible to the type monitors of C05
+    t = e.type_of()
+    if t == pt.TealType.uint64:
+        return pt.Seq(pt.Pop(pt.Itob(e)), pt.Int(1))
+    if t == pt.TealType.bytes:
+        return pt.Seq(pt.Pop(pt.Len(e)), pt.Int(1))
     return pt.Seq(pt.Pop(e), pt.Int(1))
